@@ -50,7 +50,7 @@ Definition lspec_step (c : lcfg) (m : amap) (o : lop) : amap * option (result (l
 
 Definition lspec_view (m : amap) : list Z :=
   Z.of_nat (length m)
-  :: obs_rows (map (fun ap : Z * point => fst ap :: snd ap) m) ++ SEP :: zsort (akeys m).
+  :: obs_rows_in_order (map (fun ap : Z * point => fst ap :: snd ap) m) ++ SEP :: zsort (akeys m).
 
 Definition lspec_obs (m : amap) (r : option (result (list Z))) : list Z :=
   match r with
@@ -482,3 +482,95 @@ Definition spec_run_case (c : case) : list (list Z) :=
 
 Theorem run_case_refines c : run_case c = spec_run_case c.
 Proof. destruct c as [cfg ops|cfg ops]; cbn [run_case spec_run_case]; [apply legacy_refines|apply exp_refines]. Qed.
+
+(* ================================================================= round 3 *)
+(* ---------------------------------------------------------------- space.agents ORDER (legacy) *)
+(* AgentSet(list(self._agent_to_index)): dict insertion order - a new placement goes to the end, a move keeps the
+   place, a removal deletes in place (a later re-placement goes to the end again) *)
+Definition l_order_step (c : lcfg) (l : list Z) (o : lop) : list Z :=
+  match o with
+  | LPlace a p =>
+      if negb (dim_ok (lc_bounds c) p) || mem a l then l
+      else match torus_adj c p with Ok _ => l ++ [a] | Err _ => l end
+  | LRemove a => filter (fun b => negb (b =? a)) l
+  | _ => l
+  end.
+
+Lemma lspec_keys_step c (m : amap) o :
+  akeys (fst (lspec_step c m o)) = l_order_step c (akeys m) o.
+Proof.
+  destruct o as [a p|a p|a|q r ic|p q|p q]; cbn [lspec_step l_order_step fst].
+  - destruct (negb (dim_ok (lc_bounds c) p) || mem a (akeys m)) eqn:Eg; [reflexivity|].
+    apply orb_false_iff in Eg. destruct Eg as [_ Em].
+    destruct (torus_adj c p); [|reflexivity]. cbn [fst].
+    rewrite akeys_aset_new; [unfold akeys; rewrite map_app; reflexivity|].
+    apply aget_None_keys. rewrite <- mem_In. congruence.
+  - destruct (_ || _) eqn:Eg; [reflexivity|].
+    apply orb_false_iff in Eg. destruct Eg as [_ Em]. apply negb_false_iff in Em. apply mem_In in Em.
+    destruct (torus_adj c p); [|reflexivity]. cbn [fst]. apply akeys_aset_old.
+    intros Hn. apply aget_None_keys in Hn. contradiction.
+  - destruct (mem a (akeys m)) eqn:Em; cbn [negb fst].
+    + rewrite akeys_adel. symmetry. apply filter_eqb_sym.
+    + symmetry. apply filter_neq_notin. rewrite <- mem_In. congruence.
+  - destruct (negb _); [reflexivity|]. destruct m; reflexivity.
+  - destruct (negb _); reflexivity.
+  - destruct (negb _); reflexivity.
+Qed.
+
+Lemma lspec_final_keys c ops : forall m,
+  akeys (lspec_final c m ops) = fold_left (l_order_step c) ops (akeys m).
+Proof.
+  induction ops as [|o t IH]; intros m; [reflexivity|].
+  cbn [lspec_final fold_left]. rewrite IH, lspec_keys_step. reflexivity.
+Qed.
+
+(* C10_legacy_agents_order *)
+Theorem legacy_agents_order c ops :
+  akeys (l_a2i (l_final c l_init ops)) = fold_left (l_order_step c) ops [].
+Proof.
+  destruct (l_final_refines c ops l_init l_init_inv) as [[H1 _] Habs]. rewrite H1, Habs.
+  apply lspec_final_keys.
+Qed.
+
+(* ---------------------------------------------------------------- include_center, coincident agents, radius 0 *)
+(* include_center=False drops EVERY agent at (toroidal) distance 0 of the query point - all agents standing on it,
+   not only "the" agent the caller may have in mind (the Notes of the docstring) - and nothing else *)
+Theorem legacy_center_rule c (m : amap) q r a :
+  (In a (spec_neighbors c m q r false) <->
+   exists p, In (a, p) m /\ 0 < dist2 (lc_torus c) (lc_bounds c) p q <= r * r) /\
+  (In a (spec_neighbors c m q r true) <->
+   exists p, In (a, p) m /\ dist2 (lc_torus c) (lc_bounds c) p q <= r * r).
+Proof.
+  split; rewrite legacy_neighbors_exact; split.
+  - intros [p [H1 [H2 [H3|H3]]]]; [discriminate|]. exists p. split; [exact H1|lia].
+  - intros [p [H1 H2]]. exists p. split; [exact H1|]. split; [lia|right; lia].
+  - intros [p [H1 [H2 _]]]. exists p. auto.
+  - intros [p [H1 H2]]. exists p. auto.
+Qed.
+
+(* radius 0: exactly the agents at distance 0 of the point if the centre is included, nobody otherwise *)
+Theorem legacy_radius_zero c (m : amap) q a :
+  (In a (spec_neighbors c m q 0 true) <-> exists p, In (a, p) m /\ dist2 (lc_torus c) (lc_bounds c) p q = 0) /\
+  ~ In a (spec_neighbors c m q 0 false).
+Proof.
+  destruct (legacy_center_rule c m q 0 a) as [Hf Ht]. split.
+  - rewrite Ht. split; intros [p [H1 H2]]; exists p; (split; [exact H1|]).
+    + pose proof (dist2_nonneg (lc_torus c) (lc_bounds c) p q). lia.
+    + lia.
+  - rewrite Hf. intros [p [_ H]]. lia.
+Qed.
+
+(* on a bounded space distance 0 means the same point: coincident agents are agents with equal pos *)
+Lemma dist2_zero_bounded bs : forall p q,
+  length p = length bs -> length q = length bs -> (dist2 false bs p q = 0 <-> p = q).
+Proof.
+  induction bs as [|[lo hi] bs IH]; intros p q Hp Hq.
+  - destruct p, q; try discriminate. split; reflexivity.
+  - destruct p as [|x p], q as [|y q]; try discriminate. cbn [dist2]. unfold axis_dist.
+    simpl in Hp, Hq. pose proof (dist2_nonneg false bs p q) as Hn.
+    pose proof (Z.square_nonneg (Z.abs (x - y))) as Hs. split.
+    + intros H. assert (Z.abs (x - y) * Z.abs (x - y) = 0 /\ dist2 false bs p q = 0) as [H1 H2] by lia.
+      apply IH in H2; [|lia|lia]. subst q. assert (x = y) by nia. subst. reflexivity.
+    + intros H. inversion H. subst. rewrite Z.sub_diag. cbn [Z.abs Z.mul Z.add].
+      apply IH; [lia|lia|reflexivity].
+Qed.
